@@ -35,7 +35,25 @@ type mCfg struct {
 	Delay, Skew    time.Duration
 	Method         string
 	Key            int64  // identifier of idp.Key's key pair
-	Signer         *int64 // identifier of idp.Signer's key pair
+	Signer         *int64 // identifier of idp.Signer's key pair (4 = the ECDSA P-256 pair)
+	SignerKind     string // how idp.Signer is supplied: "" / "rsa" (*rsa.PrivateKey), "opaque-rsa" (a wrapper type, HSM style), "ecdsa"
+}
+
+// opaqueSigner hides the concrete key type behind crypto.Signer, the way HSM / KMS clients do.
+type opaqueSigner struct{ inner crypto.Signer }
+
+func (o opaqueSigner) Public() crypto.PublicKey { return o.inner.Public() }
+func (o opaqueSigner) Sign(r io.Reader, digest []byte, opts crypto.SignerOpts) ([]byte, error) {
+	return o.inner.Sign(r, digest, opts)
+}
+
+const ecSignerID = int64(4)
+
+func certOfAny(id int64) *x509.Certificate {
+	if id == ecSignerID {
+		return fix.Cert("ec_256")
+	}
+	return certOf(id)
 }
 
 type mEndpoint struct {
@@ -93,8 +111,9 @@ func emitTime(t time.Time) string {
 }
 
 func (c mCfg) term() string {
-	return fmt.Sprintf("{| sso_url := %s; idp_entity := %s; max_issue_delay := %s; max_clock_skew := %s; sig_method := %s; idp_key := %s; idp_signer := %s |}",
-		emit.Str(c.SSOURL), emit.Str(c.Entity), emitDur(c.Delay), emitDur(c.Skew), emit.Str(c.Method), emit.Z(c.Key), emit.OptZ(c.Signer))
+	return fmt.Sprintf("{| sso_url := %s; idp_entity := %s; max_issue_delay := %s; max_clock_skew := %s; sig_method := %s; idp_key := %s; idp_signer := %s; idp_signer_ecdsa := %s |}",
+		emit.Str(c.SSOURL), emit.Str(c.Entity), emitDur(c.Delay), emitDur(c.Skew), emit.Str(c.Method), emit.Z(c.Key), emit.OptZ(c.Signer),
+		emit.Bool(c.Signer != nil && *c.Signer == ecSignerID))
 }
 
 func (e mEndpoint) term() string {
@@ -275,8 +294,15 @@ func newIDP(cfg mCfg, reg *stubRegistry, sess *saml.Session) *saml.IdentityProvi
 		SignatureMethod:         cfg.Method,
 	}
 	if cfg.Signer != nil {
-		idp.Signer = crypto.Signer(keyOf(*cfg.Signer))
-		idp.Certificate = certOf(*cfg.Signer)
+		switch {
+		case *cfg.Signer == ecSignerID:
+			idp.Signer = fix.ECKey("ec_256")
+		case cfg.SignerKind == "opaque-rsa":
+			idp.Signer = opaqueSigner{keyOf(*cfg.Signer)}
+		default:
+			idp.Signer = crypto.Signer(keyOf(*cfg.Signer))
+		}
+		idp.Certificate = certOfAny(*cfg.Signer)
 	}
 	return idp
 }
